@@ -385,7 +385,8 @@ pub fn judge_partial_fields(v: &Vector, o: &Obs, buf: &[u8], out: &mut Tags) {
 /// fields the specification had determined while the parse was still Partial, compared with
 /// what the code reports once the parse has been brought to an end (they are final)
 pub fn judge_determined_fields(v: &Vector, o: &Obs, buf: &[u8], out: &mut Tags) {
-    let lp = v.language_prop();
+    // the start-line fields belong to the request-line / status-line property whatever the phase
+    let lp = if v.kind == K_REQ { "C06" } else { "C07" };
     let mut chk = |name: &str, s: &Option<Sl>, want: (usize, usize)| {
         if want != (0, 0) && !span_eq(s, want, buf) {
             out.push((lp, format!("{} of the completed parse is {} but the specification had determined [{},{})", name, show(s, buf), want.0, want.1)));
